@@ -28,6 +28,9 @@ def main(tier, seed):
     for c in cases:
         if "error" not in c and deps_run.nontrivial_edges(c):
             run.mark(c["text"] + "|" + c["id"].split(":")[2])
+    # whole-run traces of `inspect` validated against specs/Osaca.tla (clauses owned by this property)
+    from harness import osaca_run
+    osaca_run.whole_runs(run, "C03", tier, seed, n_quick=24)
     return run.finish()
 
 
